@@ -58,6 +58,21 @@ META = {
     "design_ref": "DESIGN.md section 3, C46",
 }
 
+
+def _preload():
+    """Import the ioflo modules under test once in the parent process (vp.cli imports this module after
+    env.use_repo()), so that the forked shard workers do not each recompile ioflo (~1 s per shard)."""
+    try:
+        from vp.core import env
+        env.use_repo()
+        import ioflo.base.storing
+        import ioflo.trim.interior.plain.controlling
+    except Exception:       # the lazy imports inside the check functions report the real error
+        pass
+
+
+_preload()
+
 TOL = 1e-9
 TOLF = Fraction(1, 10 ** 9)
 NONFINITE = {"nan": float("nan"), "inf": float("inf"), "-inf": float("-inf")}
